@@ -124,3 +124,60 @@ PROP["manifest"]["level_text"] += (
     "parseWindows_zero_period_panics (period 0: integer divide by zero as soon as a td parses), parseWindows_names_nodup "
     "(pairwise different accepted windows give pairwise different metadata names); tied to the code by the lt ops "
     "dstr / name / pdur / parsew.")
+
+# round 2 (builder bCACHEX): the cache with its latency object and UpdateSize wired in (Model/CacheX.lean):
+# ca profile c15 creates caches WithLatencyWindows / WithAvgLatencyPrecision, scripts latency.Now with the
+# same clock as cache.Now, sends the json sizes of the messages on the op line and calls UpdateSize
+PROP["components"] += [ca_component("c15", 1500, 20000)]
+PROP["modules"] += ["Gnmi.Model.CacheX", "Gnmi.Lemmas.CacheX", "Gnmi.Lemmas.CacheXState", "Gnmi.Props.C15Wire",
+                    "Gnmi.Props.C15Size"]
+PROP["theorems"] += ["Gnmi.C15Wire." + t for t in [
+    # one gnmiUpdate: where Compute is reached
+    "compute_sites", "metadata_updates_never_sampled", "no_latency_before_sync",
+    "rejected_or_suppressed_not_sampled", "accepted_synced_sampled",
+    # one notification
+    "unitSample_spec", "notification_samples", "internal_notifications_not_sampled",
+    "unsynced_notification_no_samples", "two_update_sync_then_data",
+    # histories
+    "latency_samples_exact", "step_agreeLat", "hist0_valid", "hist0_ledger",
+    # what a refresh exports
+    "latency_exported_at_refresh", "updateMetadata_exports", "refresh_exports_bounded", "latency_leaf_value",
+    "latPath_injective", "latPath_ne_builtin"]] + [
+    "Gnmi.C15Size." + t for t in [
+    "updateSize_sum", "updateSize_sum_split", "updateSize_frame", "updateSize_ctr", "updateSize_other_values",
+    "updateSize_getInt", "updateSize_all", "updateSize_not_exported_until_refresh",
+    "history_accountingX", "history_leafcountX", "step_agreeX", "unitsSinceX_nowin", "histS_sizes"]] + [
+    "Gnmi.Cache." + t for t in [
+    # the wired functions compute, on the Target, what Model/Cache.lean's functions compute
+    "updateCoreX_base", "updateCoreX_lat", "gnmiUpdate1X_base", "gnmiUpdate1X_lat", "multiUpdatesX_base",
+    "multiUpdatesX_lat", "dispatchX_base", "dispatchX_lat", "gnmiUpdateX_base", "gnmiUpdateX_lat",
+    "updateMetaX_nowin", "resetX_nowin", "stepX_s", "runX_lift", "stepX_inv", "runX_inv",
+    "updateMetaX_ok", "updateMetaX_ctr", "resetX_ok", "resetX_lat", "updateMetadataX_get", "query_glob_all"]]
+PROP["trusted_base"] = PROP["trusted_base"] + [
+    "wired cache lean/Gnmi/Model/CacheX.lean: cache.Now and latency.Now are read from one scripted clock; the latency "
+    "entries of generateMetaUpdates' TargetIntValues loop are visited after the string values (Go's map order is "
+    "unspecified; the steps write different leaves and only add to counters; refresh events are compared as a set); "
+    "the size of a stored notification is a parameter (Env.sizeOf) that the driver instantiates with the length of the "
+    "encoding/json rendering: struct framing of pb.Notification computed in Driver/CA.lean (jsonSize), the lengths of "
+    "the prefix / update messages of client notifications taken from json.Marshal by the generator (op line), those of "
+    "the cache's own metaNoti messages computed in the driver (jsonTargetPrefix / jsonMetaUpdate)",
+]
+PROP["manifest"]["level_text"] += (
+    " Latency wiring and UpdateSize (Model/CacheX.lean = the cache model with Target.lat, the two Compute sites of "
+    "gnmiUpdate, UpdateReset in updateMeta, the meta/latency/window/<w>/<stat> leaves of generateMetaUpdates and "
+    "Cache.UpdateSize wired in, proved to compute on the Target exactly what Model/Cache.lean computes: *_base, stepX_s, "
+    "runX_lift): compute_sites (gnmiUpdate reaches Compute iff the update is real data, the target is in sync and a "
+    "leaf is returned - not for metadata-addressed, pre-sync, rejected, stale, future or suppressed updates: "
+    "metadata_updates_never_sampled, no_latency_before_sync, rejected_or_suppressed_not_sampled), notification_samples "
+    "(any notification shape: one Compute per sampled unit, the sync flag read unit by unit), latency_samples_exact "
+    "(for every history of updates, Add/Remove/Reset/Sync/Connect/ConnectError/UpdateMetadata/UpdateSize on any number "
+    "of targets, any windows and precision, the latency object of a target is the latency model run on: one "
+    "Compute(now - ts) per accepted non-metadata unit processed while in sync since Add, one UpdateReset per "
+    "UpdateMetadata/Reset, nothing else), latency_exported_at_refresh / refresh_exports_bounded (what a refresh adds to "
+    "the metadata object is UpdateReset's output on those samples, hence - latency_bounds - bounded by the latencies "
+    "of the accepted post-sync updates the window covers), latency_leaf_value (the leaf written carries that value); "
+    "updateSize_sum (targetSize = sum of the sizes of ALL stored leaves, metadata leaves included), updateSize_frame "
+    "(nothing else changes), history_accountingX / history_leafcountX (the counter accounting and the leaf count of "
+    "C15Hist / C15 over histories that also contain UpdateSize, for caches with any latency windows). Tied to "
+    "cache/cache.go by the ca correspondence, profile c15 (WithLatencyWindows / WithAvgLatencyPrecision caches, "
+    "latency.Now on the scripted clock, op updsize, corpus/C15/latency_only_post_sync_accepted.ops).")
